@@ -46,6 +46,7 @@ struct EnvState {
     std::vector<BufReg> owned_bufs;      // preempt mode: caller buffers with the owning task in .id
     u64 shared_stores = 0;
     u64 mon_accesses = 0;
+    u64 seam_count[EV_NKINDS] = {0};
     const u8* watch_p = nullptr; size_t watch_n = 0; u64 watch_hits = 0;   // caller's key buffer during polyseed_keygen
     int task_blk_seq[MAXT + 1] = {0};
     Rng sched_rng{1};
@@ -55,7 +56,8 @@ extern Task tasks[MAXT];
 extern int ntasks;
 extern __thread Task* tls_task;
 extern u32 n_guards;
-extern std::vector<u8> guard_hit;
+enum { GUARD_MAX = 1 << 16 };
+extern u8 guard_hit[GUARD_MAX];
 extern bool have_edges, have_monitor;
 
 void start_tasks(int n);
